@@ -109,14 +109,25 @@ def handle (args : List String) (impl : String) : R Ans :=
               | none => (9, 9))
             | none => (9, 9))
         | _ => (9, 9)
+      -- slices: the owned copy of the rc view, and the rc of the owned copy of the view
+      let own : Option String := match cont.splitOn "." with
+        | ["slice", a, b, r] => some <|
+            match (DnaStr.fromBytes seq).bind fun d => (DnaStr.sliceOf d a.toNat! b.toNat!).map fun s => (d, if r == "1" then s.rc else s) with
+            | some (d, s) =>
+              (match (DnaStr.Slice.toOwned d s.rc).bind DnaStr.toBytes, ((DnaStr.Slice.toOwned d s).bind DnaStr.rc).bind DnaStr.toBytes with
+               | some x, some y => s!" own={showNats x} ownrc={showNats y}"
+               | _, _ => " own=panic")
+            | none => " own=panic"
+        | _ => none
       let model := match rcBases, rcrc, kmersRc with
-        | some a, some b, some ks => s!"rc={showNats a} rcrc={showNats b} kmers={showKs c ks} inv={inv} pal={pal}"
+        | some a, some b, some ks => s!"rc={showNats a} rcrc={showNats b} kmers={showKs c ks} inv={inv} pal={pal}{own.getD ""}"
         | _, _, _ => "panic"
       let r := KSpec.rc l
       let ws := KSpec.windows c.K l
       -- the i-th k-mer of the reverse complement is the reverse complement of the (n-K-i)-th k-mer
       let expectK := if ws.isEmpty then "-" else ",".intercalate (ws.reverse.map fun w => expK (KSpec.rc w))
-      let expect := s!"rc={showNats r} rcrc={showNats l} kmers={expectK} inv=3 pal={if l == r then 3 else 0}"
+      let expect := s!"rc={showNats r} rcrc={showNats l} kmers={expectK} inv=3 pal={if l == r then 3 else 0}" ++
+        (if own.isSome then s!" own={showNats r} ownrc={showNats r}" else "")
       pure { model, verdict := if impl == expect then "ok" else s!"FAIL:rc-not-coherent(expected {expect})" }
     | _, _ => throw "bad-op"
   | _ => throw "bad-request"
